@@ -128,8 +128,13 @@ CHECKS = {
             "injection in layers/__init__, noise, segments, coder, consonance stream/transport. The responder double parses "
             "len3+payload frames and decrypts with a forward-only counter, so any torn header/payload pair or counter/wire order "
             "inversion is a decrypt failure; every stanza id must appear exactly once. Removing the lock in YowLayer.toLower is "
-            "caught in the first runs. Interleavings are sampled; the evidence lists the distinct sender orders observed.",
-            "Trusted: dissononce cipher states of the peer. Senders start after the handshake (C04 covers the handshake thread's writes).",
+            "caught in the first runs. Interleavings are sampled; the evidence lists the distinct sender orders observed. "
+            "In addition 24 (quick) / 960 (thorough) runs use the library's complete default stack with its real socket and "
+            "asyncore dispatchers over loopback TCP against a server thread (Noise responder per connection), with statement-"
+            "level yield injection inside the dispatchers and asyncore: the bytes read from the peer's socket must equal, byte "
+            "for byte, what the stack handed to the network layer (this also judges the handshake thread's writes against the "
+            "asyncore loop's), every frame must decrypt in counter order and every stanza id arrive exactly once.",
+            "Trusted: dissononce cipher states of the peer. In the probe-level runs senders start after the handshake (C04 covers the handshake thread's writes there).",
             "DESIGN.md 4/C11"),
     "C14": ("exploration",
             "runtime monitor: reference model of offered/confirmed/consumed one-time keys run in lock-step with a real client stack in the server-double world; upload stanzas checked on the wire, signatures verified independently",
@@ -174,8 +179,13 @@ CHECKS = {
             "calls, connected/disconnected/authenticated announcements above the network layer and at the top, login attempts = "
             "fresh prologue+hello accepted by the responder, pings on the wire, failures/stream errors delivered upward, "
             "library-initiated closes, writes to a dead dispatcher, reported connection status, presented passive flag) are "
-            "compared with what probes, dispatcher log and responder observed. Four seeded mutants are caught.",
-            "Trusted: the reference machine (our reading of the statement), scripted dispatcher. First login (key upload, reconnect) precedes the judged history. Real socket/asyncore dispatchers: see DESIGN.md.",
+            "compared with what probes, dispatcher log and responder observed. Four seeded mutants are caught. In addition 14 "
+            "(quick) / 168 x repetitions (thorough) scripted lifecycles run through the library's real socket and asyncore "
+            "dispatchers over loopback TCP (peer close, local disconnect, refused connect, stream error with automatic "
+            "reconnect, re-login after the network thread ended, immediate re-login from another thread while the first "
+            "connect() has not returned, login failure), with yield injection inside the dispatchers; judged on announcement "
+            "counts, network-thread termination, no spurious close, resumed (IK) handshake, exceptions in network threads.",
+            "Trusted: the reference machine (our reading of the statement), scripted dispatcher, loopback server thread. First login (key upload, reconnect) precedes the judged history.",
             "DESIGN.md 4/C16"),
     "C09": ("exploration",
             "runtime monitor: strict by-value tree comparator over stanza->entity->stanza executions for every receive-side class (repository fixtures with re-drawn values + 22 hand-transcribed shapes) and codec round trips (library + reference decoder) of every sendable entity",
